@@ -22,8 +22,10 @@ SEMI == 59   NL == 10   MINUS == 45   PLUS == 43   UNDERSCORE == 95
 (* the characters Python's str.rstrip() removes *)
 IsSpace(c) == \/ c \in 9..13 \/ c \in 28..32 \/ c = 133 \/ c = 160 \/ c = 5760
               \/ c \in 8192..8202 \/ c \in {8232, 8233, 8239, 8287, 12288}
-(* line terminators: a payload must not contain them (str.splitlines) *)
-IsTerminator(c) == c \in {10, 11, 12, 13, 28, 29, 30, 133, 8232, 8233}
+(* line terminators (Unicode: LF, VT, FF, CR, NEL, LS, PS): C01 is about payloads free of them.  The   *)
+(* information separators FS / GS / RS (28..30), which Python's str.splitlines also splits at, are not *)
+(* line terminators: a payload containing them must survive the round trip.                            *)
+IsTerminator(c) == c \in {10, 11, 12, 13, 133, 8232, 8233}
 
 RECURSIVE RStrip(_)
 RStrip(q) == IF Len(q) > 0 /\ IsSpace(q[Len(q)]) THEN RStrip(SubSeq(q, 1, Len(q) - 1)) ELSE q
